@@ -424,7 +424,11 @@ func BroadcastStrides(destShape, srcShape Shape, destStrides, srcStrides []int) 
 	start := dims - len(srcShape)
 
 	if destShape.IsVector() && srcShape.IsVector() {
-		return []int{srcStrides[0]}, nil
+		// two vectors are walked element by element, whatever their orientation: the source keeps the
+		// stride of each of its own axes
+		retVal = BorrowInts(len(srcStrides))
+		copy(retVal, srcStrides)
+		return retVal, nil
 	}
 
 	if start < 0 {
